@@ -152,6 +152,7 @@ impl Prop for C02 {
                 let y = match k { 0 => Rhs::Dec(y), 1 => Rhs::IntR(i), _ => Rhs::IntL(i) };
                 Case { x, y, mode }
             }),
+            2 => (arb_wide_dec_pair(), 0u8..8).prop_map(|((x, y), mode)| Case { x, y: Rhs::Dec(y), mode }),
             3 => tie_pair(),
             3 => wide_pair(),
             2 => exact_wide(),
